@@ -50,6 +50,8 @@ type c19Script struct {
 	Cont   string   // plus-903 | plus-904 | 908-904 | 904
 	Batch  bool     // all lines of one server reaction in one segment (thorough)
 	Early  bool     // ack-minus: the unsolicited "ACK :-a" follows the ACK at once (thorough)
+	Plus   string   // "" | before-reply | at-end: an "AUTHENTICATE +" nobody asked for, before the server answers CAP REQ (or right after LS when nothing is requested) / after the negotiation
+	Late   []string // CAP lines the server sends after the negotiation is over ("ACK :-a", "NAK :a zz", ...)
 }
 
 func (p *c19Script) String() string {
@@ -60,7 +62,14 @@ func (p *c19Script) String() string {
 	if len(a) > 120 {
 		a = fmt.Sprintf("%s… (%d names)", a[:60], len(p.A))
 	}
-	return fmt.Sprintf("wanted=[%s] sasl=%s advertised=[%s] reply=%s sasl-continuation=%s batch=%v early-minus=%v", w, p.Sasl, a, p.Reply, p.Cont, p.Batch, p.Early)
+	x := ""
+	if p.Plus != "" {
+		x += " unsolicited-plus=" + p.Plus
+	}
+	if len(p.Late) > 0 {
+		x += " late=[" + strings.Join(p.Late, " | ") + "]"
+	}
+	return fmt.Sprintf("wanted=[%s] sasl=%s advertised=[%s] reply=%s sasl-continuation=%s batch=%v early-minus=%v%s", w, p.Sasl, a, p.Reply, p.Cont, p.Batch, p.Early, x)
 }
 
 type c19Finding struct{ Oracle, Msg string }
@@ -187,7 +196,7 @@ func (m *c19srv) send(ls []c19line) {
 func (m *c19srv) ack(names []string) c19line {
 	l := c19line{text: ":srv CAP me ACK :" + strings.Join(names, " ")}
 	starts := false
-	if m.p.Sasl != "none" {
+	if m.p.Sasl != "none" && m.p.Sasl != "BROKEN" {
 		for _, n := range names {
 			if n == "sasl" {
 				starts = true
@@ -232,6 +241,9 @@ func (m *c19srv) react(idx int, l string) {
 			line.demand = "empty-intersection"
 		}
 		m.send([]c19line{line})
+		if m.p.Plus == "before-reply" && len(m.wantedAndAdvertised()) == 0 {
+			m.send([]c19line{{text: "AUTHENTICATE +", plus: true}})
+		}
 	case strings.HasPrefix(l, "CAP REQ"):
 		m.r.ReqLines = append(m.r.ReqLines, l)
 		names := strings.Fields(strings.TrimPrefix(strings.TrimPrefix(strings.TrimPrefix(l, "CAP REQ"), " "), ":"))
@@ -240,6 +252,9 @@ func (m *c19srv) react(idx int, l string) {
 		}
 		if len(names) == 0 {
 			return // an empty request: nothing a server could acknowledge (judged below)
+		}
+		if m.p.Plus == "before-reply" && len(m.r.ReqLines) == 1 {
+			m.send([]c19line{{text: "AUTHENTICATE +", plus: true}})
 		}
 		switch m.p.Reply {
 		case "nak":
@@ -271,8 +286,8 @@ func (m *c19srv) react(idx int, l string) {
 		}
 	case strings.HasPrefix(l, "AUTHENTICATE "):
 		arg := strings.TrimPrefix(l, "AUTHENTICATE ")
-		if m.p.Sasl == "none" {
-			m.fail("authenticate-without-sasl", "the client sent "+Q(l)+" although no SASL mechanism is configured")
+		if m.p.Sasl == "none" || m.p.Sasl == "BROKEN" {
+			m.fail("authenticate-without-sasl", "the client sent "+Q(l)+" although no (working) SASL mechanism is configured")
 			return
 		}
 		if arg == "PLAIN" || arg == "EXTERNAL" {
@@ -346,6 +361,8 @@ func c19Run(p *c19Script) (*c19Result, *vx.Outcome) {
 				cfg.Sasl = sasl.NewPlainClient("", c19User, c19Pass)
 			case "EXTERNAL":
 				cfg.Sasl = sasl.NewExternalClient("")
+			case "BROKEN":
+				cfg.Sasl = c19Broken{}
 			}
 		}, nil)
 		if err != nil {
@@ -367,6 +384,15 @@ func c19Run(p *c19Script) (*c19Result, *vx.Outcome) {
 		if p.Reply == "ack-minus" && m.lateMinusAt == -1 {
 			m.lateMinusAt = len(s.Wire())
 			m.feed(":srv CAP me ACK :-a")
+			m.pump()
+		}
+		if p.Plus == "at-end" {
+			m.send([]c19line{{text: "AUTHENTICATE +", plus: true}})
+			m.pump()
+		}
+		// late CAP lines: an ACK changes what is held, a NAK changes nothing (feed compares HasCapability after each)
+		for _, l := range p.Late {
+			m.feed(":srv CAP me " + l)
 			m.pump()
 		}
 		m.syncTranscript()
@@ -441,6 +467,12 @@ func c19Run(p *c19Script) (*c19Result, *vx.Outcome) {
 	}
 	return r, o
 }
+
+// c19Broken is a mechanism whose Start fails: an ACK of sasl then does not start SASL.
+type c19Broken struct{}
+
+func (c19Broken) Start() (string, []byte, error) { return "", nil, fmt.Errorf("no credentials") }
+func (c19Broken) Next([]byte) ([]byte, error)    { return nil, fmt.Errorf("no exchange in progress") }
 
 func c19short(ss []string) string {
 	s := strings.Join(ss, " ")
@@ -539,7 +571,7 @@ func c19Job(name string, note bool, scripts func(yield func(p *c19Script) bool))
 				if len(tr) > 1500 {
 					tr = tr[:1500] + "…"
 				}
-				e.Fail(p.Family, f.Oracle, p.String(), f.Msg+" :: transcript: "+tr, map[string]interface{}{"wanted": c19short(p.W), "sasl": p.Sasl, "advertised": c19short(p.A), "reply": p.Reply, "continuation": p.Cont, "batch": p.Batch, "early_minus": p.Early})
+				e.Fail(p.Family, f.Oracle, p.String(), f.Msg+" :: transcript: "+tr, map[string]interface{}{"wanted": c19short(p.W), "sasl": p.Sasl, "advertised": c19short(p.A), "reply": p.Reply, "continuation": p.Cont, "batch": p.Batch, "early_minus": p.Early, "plus": p.Plus, "late": strings.Join(p.Late, " | ")})
 			}
 			if n := len(strings.Join(r.Transcript, "\n")); n > bestLen {
 				bestLen = n
@@ -635,7 +667,7 @@ func c19Large(n, l int, mixed bool, saslMech string, extraAdv, extraWanted int, 
 func init() {
 	Register(&Prop{
 		ID:   "C19",
-		Rule: "family small-universe: full product wanted W ⊆ {a,b,zz} × SASL {none, PLAIN(u,p), EXTERNAL(\"\")} × advertised A ⊆ {a,b,sasl,zz} × reply to CAP REQ {ACK all, NAK, ACK in two lines, ACK then an unsolicited ACK :-a, ACK in reversed order} × SASL continuation {AUTHENTICATE + then 903; + then 904; 908 then 904; 904 at once} = 3072 scripts (thorough: × server lines one per segment / one segment per reaction × late / immediate ACK :-a × advertised order forward / reversed), one session each against a reactive model server; family large-sets: wanted = advertised sets of N capabilities with L-byte names (quick N ∈ {10,30,60}, L ∈ {10,40}; thorough N = 1..80, L ∈ {3..200} and mixed) × SASL × extra advertised / extra wanted names, every CAP REQ line ACKed (or NAKed); a case is one session; distinct = distinct (configuration, full client/server transcript)",
+		Rule: "family small-universe: full product wanted W ⊆ {a,b,zz,sasl} × SASL {none, PLAIN(u,p), EXTERNAL(\"\")} × advertised A ⊆ {a,b,sasl,zz} × reply to CAP REQ {ACK all, NAK, ACK in two lines, ACK then an unsolicited ACK :-a, ACK in reversed order} × SASL continuation {AUTHENTICATE + then 903; + then 904; 908 then 904; 904 at once} = 6144 scripts (thorough: × server lines one per segment / one segment per reaction × late / immediate ACK :-a × advertised order forward / reversed), one session each against a reactive model server; family unsolicited-plus: W × SASL {none, PLAIN, EXTERNAL, a mechanism whose Start fails} × A × reply {ACK, NAK, ACK in two lines} × an AUTHENTICATE + nobody asked for {before the reply to CAP REQ (after LS when nothing is requested), after the negotiation}; family late-lines: after the negotiation every sequence of up to 2 (thorough 3) further server lines over {ACK :-a, ACK :a, NAK :a, NAK :-a, NAK :a zz, ACK :-a b, NAK :-a -b, ACK :-zz}, HasCapability compared after each (W ∈ {{a,b},{a,b,zz,sasl}} quick, all 16 thorough); family large-sets: wanted = advertised sets of N capabilities with L-byte names (quick N ∈ {10,30,60}, L ∈ {10,40}; thorough N = 1..80, L ∈ {3..200} and mixed) × SASL × extra advertised / extra wanted names, every CAP REQ line ACKed (or NAKed); a case is one session; distinct = distinct (configuration, full client/server transcript)",
 		Assumptions: []string{
 			"single-line CAP LS replies (CAP 3.1); multi-line LS (\"CAP * LS * :\") is outside the statement's quantifier",
 			"the server acknowledges exactly the names of the REQ line it answers (or a split of them); it never acknowledges names that were not requested except the scripted ACK :-a",
@@ -646,12 +678,73 @@ func init() {
 			replies := []string{"ack", "nak", "ack2", "ack-minus", "ack-rev"}
 			conts := []string{"plus-903", "plus-904", "908-904", "904"}
 			mechs := []string{"none", "PLAIN", "EXTERNAL"}
-			for wi, w := range c19Subsets([]string{"a", "b", "zz"}) { // zz sorts after sasl
+			allW := c19Subsets([]string{"a", "b", "zz", "sasl"}) // zz sorts after sasl; sasl may also be asked for by name
+			allA := c19Subsets([]string{"a", "b", "sasl", "zz"})
+			// unsolicited AUTHENTICATE +, and a mechanism that cannot start
+			for wi, w := range allW {
+				for _, mech := range []string{"none", "PLAIN", "EXTERNAL", "BROKEN"} {
+					w, mech := w, mech
+					jobs = append(jobs, c19Job(fmt.Sprintf("unsolicited-plus/W=%d/sasl=%s", wi, mech), false, func(yield func(p *c19Script) bool) {
+						for _, a := range allA {
+							for _, rep := range []string{"ack", "nak", "ack2"} {
+								for _, plus := range []string{"", "before-reply", "at-end"} {
+									if plus == "" && mech != "BROKEN" {
+										continue // small-universe has these
+									}
+									if !yield(&c19Script{Family: "unsolicited-plus", W: w, Sasl: mech, A: a, Reply: rep, Cont: "plus-903", Plus: plus}) {
+										return
+									}
+								}
+							}
+						}
+					}))
+				}
+			}
+			// late CAP lines after the negotiation: sequences over an alphabet of ACKs and NAKs that mention held and unheld names
+			lateAlpha := []string{"ACK :-a", "ACK :a", "NAK :a", "NAK :-a", "NAK :a zz", "ACK :-a b", "NAK :-a -b", "ACK :-zz"}
+			var lateSeqs [][]string
+			depth := 2
+			if tier == "thorough" {
+				depth = 3
+			}
+			var gen func(pre []string)
+			gen = func(pre []string) {
+				if len(pre) > 0 {
+					lateSeqs = append(lateSeqs, append([]string{}, pre...))
+				}
+				if len(pre) == depth {
+					return
+				}
+				for _, l := range lateAlpha {
+					gen(append(pre, l))
+				}
+			}
+			gen(nil)
+			for wi, w := range allW {
+				if tier != "thorough" && wi != 3 && wi != 15 { // {a,b} and {a,b,zz,sasl}
+					continue
+				}
+				for _, mech := range mechs {
+					w, mech := w, mech
+					jobs = append(jobs, c19Job(fmt.Sprintf("late-lines/W=%d/sasl=%s", wi, mech), false, func(yield func(p *c19Script) bool) {
+						for _, a := range allA {
+							for _, rep := range []string{"ack", "nak"} {
+								for _, late := range lateSeqs {
+									if !yield(&c19Script{Family: "late-lines", W: w, Sasl: mech, A: a, Reply: rep, Cont: "plus-903", Late: late}) {
+										return
+									}
+								}
+							}
+						}
+					}))
+				}
+			}
+			for wi, w := range allW {
 				for _, mech := range mechs {
 					for _, rep := range replies {
 						w, mech, rep := w, mech, rep
 						name := fmt.Sprintf("small-universe/W=%d/sasl=%s/reply=%s", wi, mech, rep)
-						jobs = append(jobs, c19Job(name, wi == 7, func(yield func(p *c19Script) bool) {
+						jobs = append(jobs, c19Job(name, wi == 7 || wi == 15, func(yield func(p *c19Script) bool) {
 							type variant struct{ batch, early, rev bool }
 							vs := []variant{{}}
 							if tier == "thorough" {
@@ -728,7 +821,7 @@ func init() {
 					return 1
 				case strings.HasPrefix(n, "large-sets/"):
 					return 2
-				case strings.HasPrefix(n, "small-universe/W=7/"):
+				case strings.HasPrefix(n, "small-universe/W=7/"), strings.HasPrefix(n, "small-universe/W=15/"):
 					return 3
 				}
 				return 4
